@@ -24,17 +24,41 @@ def flags_of(case):
     f = case.get('flags', {})
     return dict(skip_brute=bool(f.get('skip_brute')), skip_case=bool(f.get('all_lower')), folder=f.get('folder', 'Grammar'))
 
+# Process history: the queue of the grammar loaded before, abandoned after a few pops, stays alive (and is popped now and then) while the next queue runs.
+# Queues and grammars are independent objects, so this cannot change what the monitored queue emits.
+LIVE = {'pcfg': None, 'decoys': [], 'calls': 0, 'used': 0, 'decoy_pops': 0}
+
 def run_queue(path, flags, frontier=False, expand=None, max_pops=60000):
     """Returns (pcfg, QueueMonitor, per-pop guesses or None).  expand: None | callable(rec, item, pcfg) called per pop."""
     repo.scratch()
     from lib_guesser.priority_queue import PcfgQueue
+    LIVE['calls'] += 1
+    decoy = None
+    if LIVE['pcfg'] is not None and LIVE['calls'] % 2 == 0:
+        try:
+            decoy = PcfgQueue(LIVE['pcfg'])
+            for _ in range(3):
+                if decoy.next() is None:
+                    break
+                LIVE['decoy_pops'] += 1
+            LIVE['decoys'] = (LIVE['decoys'] + [decoy])[-2:]
+            LIVE['used'] += 1
+        except Exception:
+            decoy = None
     pcfg = monitors.load_pcfg(path, 'x', skip_brute=flags['skip_brute'], skip_case=flags['skip_case'], folder=flags['folder'])
+    LIVE['pcfg'] = pcfg
     q = PcfgQueue(pcfg)
     mon = monitors.QueueMonitor(pcfg, q, frontier=frontier)
     while True:
         item = mon.next()
         if item is None:
             break
+        if decoy is not None and len(mon.pops) % 7 == 3:
+            try:
+                if decoy.next() is not None:
+                    LIVE['decoy_pops'] += 1
+            except Exception:
+                pass
         if expand:
             expand(mon.pops[-1], item, pcfg)
         if len(mon.pops) > max_pops:
